@@ -816,7 +816,7 @@ def run(ctx):
         res = ctx.tlc('Gen_Numberify', ctx.pick('Gen_Numberify.cfg', 'Gen_Numberify_thorough.cfg'), leg='GEN')
         n = nroute = 0
         kinds = {}
-        nrq = ctx.pick(250, 2000)
+        nrq = ctx.pick(120, 2000)
         cand = [i for i, p in enumerate(res.printed) if routable(p) and p['fmt']]
         pick_rq = set(ctx.rng.sample(cand, min(nrq, len(cand))))
         for i, p in enumerate(res.printed):
@@ -844,7 +844,7 @@ def run(ctx):
         res = ctx.tlc('Gen_Numberify', 'Gen_Numberify_shell.cfg', leg='GEN-shell', workers=4)
         cand = [p for p in res.printed if shell_routable(p)]
         nsh = 0
-        for k, p in enumerate(ctx.rng.sample(cand, min(ctx.pick(70, 600), len(cand)))):
+        for k, p in enumerate(ctx.rng.sample(cand, min(ctx.pick(40, 600), len(cand)))):
             s2c_shell(ctx, p, k)
             ctx.case(json.dumps(['shell', p['rows'], p['fmt']]), bool(p['rows']))
             nsh += 1
@@ -857,7 +857,7 @@ def run(ctx):
     # ---- C2S -----------------------------------------------------------------------------------------
     if want('C2S'):
         path = ctx.path('numberify_trace.ndjson')
-        nev, stats = record_c2s(ctx, path, ctx.pick(2500, 40000), ctx.pick(150, 1500))
+        nev, stats = record_c2s(ctx, path, ctx.pick(2000, 40000), ctx.pick(80, 1500))
         with open(path) as f:
             for line in f:
                 ev = json.loads(line)
